@@ -300,9 +300,16 @@ with toks_targ (a : targ) : list tok :=
   | ATy t => toks_tref t
   end.
 
+(* a field name: `_` and `_name` are tokens of their own (underscore, tl2depName) *)
+Definition toks_fname (n : str) : list tok :=
+  match n with
+  | [] => [KIdent [] n]
+  | c :: w => if c =? 95 then match w with [] => [KUnderscore] | _ => [KDep w] end else [KIdent [] n]
+  end.
+
 Definition toks_field (f : field) : list tok :=
   (if nonempty (f_name f)
-   then (if f_ign f then [KUnderscore] else [KIdent [] (f_name f)]) ++ (if f_opt f then [KP 63] else []) ++ [KP 58]
+   then toks_fname (f_name f) ++ (if f_opt f then [KP 63] else []) ++ [KP 58]
    else []) ++ toks_tref (f_type f).
 
 Definition toks_fields (fs : list field) : list tok := concat (map toks_field fs).
